@@ -90,6 +90,7 @@ impl C19 {
             c.stats.bump("probe.c19.skew_outside_stated_range");
             return Ok(());
         }
+        let dust_pool = rs.iter().any(|x| *x < 1000);
         let st = Stable::new(amp, rs.len());
         let d = match st.d_scaled(&xs) {
             Some(d) => d,
@@ -131,6 +132,11 @@ impl C19 {
             let tokens = &d / &r / &whole;
             if g < lo_b && tokens < BigUint::from(1_000_000u64) {
                 v.finding = Some("S6b-swap-path-d-threshold".into());
+                v.truncate = false;
+            }
+            // envelope S9 (dust): an asset holds fewer than 1000 smallest units
+            if dust_pool {
+                v.finding = Some("S9-stableswap-skewed-pool-accuracy".into());
                 v.truncate = false;
             }
             // envelope S11: outside the band by at most 6 smallest units of the ask token
